@@ -111,6 +111,23 @@ BracketIoU(v, A, B) ==
         \/ /\ v.r = "" /\ v.l[1] \in {0, 1} /\ v.l[2] <= 1
            /\ LMulMag(v.l, uhi)[2] >= ilo - 1 /\ LMulMag(v.l, ulo)[2] <= ihi
 
+(* Buffered points stay inside the ellipse with half-axes tb, fb around them (they are polygons inscribed in it; the    *)
+(* clips at time 0, frequency 0 and MAX_FREQUENCY only remove area).  So a buffered Point / MultiPoint certainly does   *)
+(* not intersect a box (never buffered) or another buffered Point / MultiPoint when the ellipses stay clear of it --     *)
+(* also when the box lies in a HOLE enclosed by a ring of overlapping buffered points.  Disjoint regions: affinity 0.    *)
+PointKinds == {"Point", "MultiPoint"}
+PointsOf(g) == IF g.type = "Point" THEN {g.coordinates} ELSE Range(g.coordinates)
+Gap1(lo, hi, x) == Max(Max(lo - x, x - hi), 0)
+ClearOfBox(p, b, tb, fb) ==
+    LET dx == Gap1(b[1], b[3], p[1])  df == Gap1(b[2], b[4], p[2]) IN dx * dx * fb * fb + df * df * tb * tb > tb * tb * fb * fb
+ClearOfPoint(p, q, tb, fb) ==
+    LET dx == Abs(p[1] - q[1])  df == Abs(p[2] - q[2]) IN dx * dx * fb * fb + df * df * tb * tb > 4 * tb * tb * fb * fb
+Separate(ga, gb, tb, fb) ==
+    /\ tb > 0 /\ fb > 0 /\ tb <= 4 /\ fb <= 4
+    /\ \/ ga.type \in PointKinds /\ gb.type = "BoundingBox" /\ \A p \in PointsOf(ga) : ClearOfBox(p, gb.coordinates, tb, fb)
+       \/ gb.type \in PointKinds /\ ga.type = "BoundingBox" /\ \A p \in PointsOf(gb) : ClearOfBox(p, ga.coordinates, tb, fb)
+       \/ ga.type \in PointKinds /\ gb.type \in PointKinds /\ \A p \in PointsOf(ga), q \in PointsOf(gb) : ClearOfPoint(p, q, tb, fb)
+
 TimeOnlyPair(k1, k2) == k1 \in TimeKinds \/ k2 \in TimeKinds
 BoxPair(k1, k2)      == k1 = "BoundingBox" /\ k2 = "BoundingBox"
 
@@ -187,7 +204,7 @@ ObsDisjoint(o, s) ==
 \* neither buffered geometry reaches time 0
 AwayFromZero(o, s) == /\ Pos(RecExt(K1(o), s.e1, 1)[1]) /\ Pos(RecExt(K2(o), s.e2, 1)[1])
 
-Clauses == {"Range", "Sym", "Self", "DisjointInTime", "BoxIoU", "RectIoU", "TimeOnly", "Shift"}
+Clauses == {"Range", "Sym", "Self", "DisjointInTime", "DisjointRegions", "BoxIoU", "RectIoU", "TimeOnly", "Shift"}
 
 HoldsRun(cl, o, run) ==
     LET tb == o.in.tb  fb == o.in.fb IN
@@ -211,6 +228,10 @@ HoldsRun(cl, o, run) ==
                    IN  (ClosedExtent(g1) /\ ClosedExtent(g2) /\
                         \A r \in Readings : LET x == PExt(g1, tb, r)  y == PExt(g2, tb, r) IN x[2] < y[1] \/ y[2] < x[1])
                        => IsZero(run.sh[k].v)
+      \* buffered points that certainly do not intersect the other geometry (e.g. a box in the hole of a ring of points)
+      [] cl = "DisjointRegions" ->
+            IsLat(o) => \A k \in 1..Len(Calls(o, run)) :
+                            LET c == Calls(o, run)[k] IN Separate(c[1], c[2], tb, fb) => IsZero(c[3])
       [] cl = "BoxIoU" ->
             IsLat(o) => \A k \in 1..Len(Calls(o, run)) :
                             LET c == Calls(o, run)[k] IN ExactBox(c[1], c[2], c[3])
